@@ -188,6 +188,74 @@ where
     shape_obs(a.multiply(b))
 }
 
+// element types whose product has a different size: B1 * B1 = B8, B8w * B8w = B1w, Z0 * Z0 = B8, B8z * B8z = Z0o
+#[derive(Clone, Default)]
+struct B1(#[allow(dead_code)] u8);
+#[derive(Clone, Default)]
+struct B8(u64);
+impl std::ops::Mul for B1 {
+    type Output = B8;
+    fn mul(self, _: B1) -> B8 {
+        B8(1)
+    }
+}
+impl std::ops::Add for B8 {
+    type Output = B8;
+    fn add(self, o: B8) -> B8 {
+        B8(self.0 + o.0)
+    }
+}
+#[derive(Clone, Default)]
+struct W8(#[allow(dead_code)] u64);
+#[derive(Clone, Default)]
+struct S1(u8);
+impl std::ops::Mul for W8 {
+    type Output = S1;
+    fn mul(self, _: W8) -> S1 {
+        S1(1)
+    }
+}
+impl std::ops::Add for S1 {
+    type Output = S1;
+    fn add(self, o: S1) -> S1 {
+        S1(self.0.wrapping_add(o.0))
+    }
+}
+#[derive(Clone, Default)]
+struct Z0;
+impl std::ops::Mul for Z0 {
+    type Output = B8;
+    fn mul(self, _: Z0) -> B8 {
+        B8(1)
+    }
+}
+#[derive(Clone, Default)]
+struct W8z(#[allow(dead_code)] u64);
+#[derive(Clone, Default)]
+struct Z0o;
+impl std::ops::Mul for W8z {
+    type Output = Z0o;
+    fn mul(self, _: W8z) -> Z0o {
+        Z0o
+    }
+}
+impl std::ops::Add for Z0o {
+    type Output = Z0o;
+    fn add(self, _: Z0o) -> Z0o {
+        Z0o
+    }
+}
+
+fn multiply_mixed_k0<L, U>(n: usize, m: usize, o1: i128, o2: i128) -> String
+where
+    L: Default + Clone + std::ops::Mul<Output = U>,
+    U: Default + std::ops::Add<Output = U>,
+{
+    let a = source::<L>(n, 0, o1);
+    let b = source::<L>(0, m, o2);
+    shape_obs(a.multiply(b))
+}
+
 fn mul_like_k0<T: Default + Clone>(n: usize, m: usize, o1: i128, o2: i128) -> String {
     let a = source::<T>(n, 0, o1);
     let b = source::<T>(0, m, o2);
@@ -254,6 +322,13 @@ pub fn run_k(toks: &[&str]) -> String {
             1 => multiply_k0::<u8>(u(1), u(2), a[3], a[4]),
             8 => multiply_k0::<u64>(u(1), u(2), a[3], a[4]),
             16 => multiply_k0::<u128>(u(1), u(2), a[3], a[4]),
+            _ => "INVALID".to_string(),
+        },
+        "multiply_mixed" => match (a[0], a[1]) {
+            (1, 8) => multiply_mixed_k0::<B1, B8>(u(2), u(3), a[4], a[5]),
+            (8, 1) => multiply_mixed_k0::<W8, S1>(u(2), u(3), a[4], a[5]),
+            (0, 8) => multiply_mixed_k0::<Z0, B8>(u(2), u(3), a[4], a[5]),
+            (8, 0) => multiply_mixed_k0::<W8z, Z0o>(u(2), u(3), a[4], a[5]),
             _ => "INVALID".to_string(),
         },
         "mul_like" => with_type!(a[0], T => mul_like_k0::<T>(u(1), u(2), a[3], a[4])),
